@@ -229,7 +229,7 @@ Variables (p:pos) (m:move).
 Hypothesis Hlen : length (placement p) = 64%nat.
 Hypothesis Hlegal : In m (legal_moves p).
 
-(** The two conventions admit exactly the same moves in the successor position. *)
+(** The two conventions allow exactly the same moves in the successor position. *)
 Theorem legal_moves_fide_eq : legal_moves (apply_fide p m) = legal_moves (apply p m).
 Proof.
   destruct (legal_dom p m Hlegal) as [Hs [Hd _]].
